@@ -246,3 +246,22 @@ Proof.
     + split; intro H; [right; left; reflexivity|reflexivity].
   - split; intro H; [left; reflexivity|reflexivity].
 Qed.
+
+(* The reported variance is the variance of the estimation error written as a quadratic form:
+   C00 - 2 w.r + w.(A w), because the returned weights solve A w = r. *)
+Lemma krige_var_quadratic k o v :
+  krige k = Some o -> (v < k_nvar k)%nat ->
+  nth v (o_var o) 0 ==
+  get (k_c00 k) v v
+  - (2#1) * fdot (nred k) (fun a => get (o_wgt o) a v) (fun a => get (o_rhs o) a v)
+  + fdot (nred k) (fun a => get (o_wgt o) a v)
+         (fmv (nred k) (get (o_lhs o)) (fun a => get (o_wgt o) a v)).
+Proof.
+  intros H Hv. rewrite (krige_var k o v H Hv).
+  assert (Hq : fdot (nred k) (fun a => get (o_wgt o) a v)
+                 (fmv (nred k) (get (o_lhs o)) (fun a => get (o_wgt o) a v))
+               == fdot (nred k) (fun a => get (o_wgt o) a v) (fun a => get (o_rhs o) a v)).
+  { apply fdot_ext; intros l Hl; [reflexivity|].
+    exact (krige_weights_solve k o H l v Hl Hv). }
+  rewrite Hq. rewrite (fdot_comm (nred k) (fun a => get (o_rhs o) a v)). ring.
+Qed.
